@@ -50,7 +50,8 @@ def run(ctx):
     concrete = [d for d in dis if d.get("kind") == "disagreement" and not d["holds_on_impl"]]
     others = [d for d in dis if d not in concrete]
     recorded = 0
-    for d in concrete[:50]:
+    for d in concrete:
+        if recorded >= 50: break      # cap on RECORDED violations: hits of known findings must not use it up
         recorded += bool(ctx.violation({"kind": "input", "input": d["op"], "actual": d["impl"], "expected": d["model"],
                                         "correspondence": d["correspondence"],
                                         "monitor": "reference value from the fake cluster's state (Spec/Offsets) differs from what the query returned"},
